@@ -35,7 +35,13 @@ Write(o) == /\ (o.k = "accept" => o.n <= NextWriteLen(c)) \/ ~PendingWrite(c)
                /\ last' = [res |-> w.res.k, calls |-> w.calls]
             /\ UNCHANGED nenq
 
-Next == (\E n \in 1..MaxLen : Enq(n)) \/ (\E o \in Outcomes : Write(o))
+\* clear_write_buffer (public; the server calls it on a hang-up): everything pending is discarded
+Clear == /\ c' = ClearWrite(c)
+         /\ owed' = wire
+         /\ last' = [res |-> "cleared", calls |-> 0]
+         /\ UNCHANGED <<wire, nenq>>
+
+Next == (\E n \in 1..MaxLen : Enq(n)) \/ (\E o \in Outcomes : Write(o)) \/ Clear
 Spec == Init /\ [][Next]_vars
 
 \* nothing lost, duplicated or reordered, at any time
@@ -49,7 +55,10 @@ OneWritePerCall == last.calls <= 1
 \* EINTR changes nothing that is pending
 EintrInert == [][\A o \in Outcomes : (o.k = "eintr" /\ Write(o)) => (PendingBytes(c') = PendingBytes(c) /\ wire' = wire)]_vars
 
-WitnessNames == <<"short_write", "two_in_flight", "failure_with_queue", "invalid_write", "all_written">>
+\* after clear_write_buffer nothing is pending and the next response starts on a response boundary
+ClearOK == [][Clear => (~PendingWrite(c') /\ PendingBytes(c') = <<>>)]_vars
+
+WitnessNames == <<"short_write", "two_in_flight", "failure_with_queue", "invalid_write", "all_written", "cleared_mid_response">>
 ASSUME \A i \in 1..Len(WitnessNames) : TLCSet(i, FALSE)
 Witness(i, cond) == IF cond /\ ~TLCGet(i) THEN TLCSet(i, TRUE) /\ PrintT(<<"WITNESS", WitnessNames[i]>>) ELSE TRUE
 Witnesses ==
@@ -58,5 +67,6 @@ Witnesses ==
     /\ Witness(3, last.res = "ConnectionClosed" /\ nenq >= 2 /\ Len(wire) < Len(owed) + 1)
     /\ Witness(4, last.res = "InvalidWrite")
     /\ Witness(5, nenq = MaxEnq /\ ~PendingWrite(c) /\ wire = owed /\ wire # <<>>)
+    /\ Witness(6, last.res = "cleared" /\ wire # <<>> /\ nenq >= 2)
 
 =============================================================================
